@@ -13,7 +13,7 @@ META = dict(
     "paths are executed concretely",
     functions=["qucumber/utils/cplx.py: make_complex, numpy, real, imag, scalar_mult (+out=), matmul, inner_prod, outer_prod, einsum, "
                "conjugate, conj, elementwise_mult, elementwise_division, absolute_value, kronecker_prod, sigmoid, scalar_divide, inverse, norm_sqr, norm, I"],
-    bounds=dict(quick="shape classes: scalar [2], vectors [2,k] k in {1,2,3}, matrices [2,k,l] with (k,l) in {(1,1),(2,3),(3,1),(2,2)}, rank-4 batches [2,2,1,2,3]",
+    bounds=dict(quick="shape classes: scalar [2], vectors [2,k] k in {1,2,3}, matrices [2,k,l] with (k,l) in {(1,1),(2,3),(3,1),(2,2)}, rank-4 batches [2,2,1,2,3]; dirty / reused out= buffers; matrix square with one tensor object; sigmoid at concrete arguments in all quadrants; result dtypes",
                 thorough="additionally (k,l) in {(3,3),(1,3),(3,2)}, vectors k=4, rank-4 [2,3,2,2,2] and rank-5 conjugate"),
     outside=["empty dimensions", "dtype promotion beyond what the shim self-test against real torch pins down", "floating point (division by values near 0)"],
     stubs=["torch -> vf.symtorch", "numpy ufuncs on object arrays in cplx.sigmoid -> vf.shim.NPProxy"],
